@@ -1,4 +1,6 @@
 """C08 — Accumulated patches are delivered completely, atomically and exactly once."""
+import json
+
 from hypothesis import strategies as st
 
 from props import c02, closedloop as cl
@@ -22,6 +24,7 @@ ASSUMPTIONS = c02.ASSUMPTIONS[:3] + [
     'transformation functions are appended to patch.fns by the handlers (the same mechanism the framework uses for finalizers)',
 ]
 BUDGET = {'quick': 120, 'thorough': 1000}
+FINDING_D = 'C08-D-leftover-of-last-background-patching-dropped'
 FINDING_C = 'C08-C-merge-patch-lands-on-same-named-successor'
 
 
@@ -53,6 +56,14 @@ def scenarios(draw):
     if draw(st.booleans()):
         handlers.append({'kind': 'timer', 'id': 't9', 'interval': draw(st.sampled_from([2.0, 5.0])), 'script': [], 'duration': draw(st.sampled_from([0, 0.5])),
                          'patch': [{'set': ['status', 'st9'], 'value': '@attempt'}] + ([{'fn': 'tmk', 'zone': 'status', 'field': 'markers', 'mode': 'append'}] if draw(st.booleans()) else [])})
+        # a second background handler of the same objects with its own patch: what one of them accumulates is its own
+        second = draw(st.sampled_from([None, 'daemon', 'daemon', 'timer']))
+        if second == 'daemon':
+            handlers.append({'kind': 'daemon', 'id': 'd8', 'behaviour': 'exit', 'script': [], 'duration': draw(st.sampled_from([0.7, 2.5, 6.0])),
+                             'patch': [{'set': ['status', 'sd8'], 'value': '@attempt'}] + ([{'fn': 'dmk', 'zone': 'status', 'field': 'markers', 'mode': 'append'}] if draw(st.booleans()) else [])})
+        elif second == 'timer':
+            handlers.append({'kind': 'timer', 'id': 't8', 'interval': 3.0, 'script': [], 'duration': draw(st.sampled_from([0, 0.7])),
+                             'patch': [{'set': ['status', 'st8'], 'value': '@attempt'}] + ([{'fn': 'umk', 'zone': 'status', 'field': 'markers', 'mode': 'append'}] if draw(st.booleans()) else [])})
     spec = {'handlers': handlers, 'lifecycle': draw(st.sampled_from(['asap', 'all_at_once', 'one_by_one'])),
             'settings': {'persistence.consistency_timeout': 5.0, 'queueing.idle_timeout': draw(st.sampled_from([5.0, 0.5]))}}
     progress, diffbase = draw(cl.storage_cfgs())
@@ -276,7 +287,7 @@ def check(run, res, t_end):
                 seg_reqs.append(item)
         segs.append((seg_calls, seg_reqs))
         for seg_calls, seg_reqs in segs:
-            uids = {c['uid'] for c in seg_calls if hs[c['hid']]['kind'] not in ('timer',)}
+            uids = {c['uid'] for c in seg_calls if hs[c['hid']]['kind'] not in ('timer', 'daemon')}
             seen_404 = None
             prev_req = None
             for r in seg_reqs:
@@ -308,7 +319,7 @@ def check(run, res, t_end):
             continue
         for path, val in c.get('patched') or []:
             model.setdefault(c['uid'], {})[tuple(path)] = val
-        if c['outcome'] == 'ok' and c.get('result') is not None and hs[c['hid']]['kind'] != 'timer':
+        if c['outcome'] == 'ok' and c.get('result') is not None and hs[c['hid']]['kind'] not in ('timer', 'daemon'):
             if isinstance(c['result'], dict):
                 for k2, v2 in c['result'].items():
                     model.setdefault(c['uid'], {})[('status', c['hid'], k2)] = v2
@@ -331,6 +342,16 @@ def check(run, res, t_end):
         have = list((body.get('status') or {}).get('markers') or [])
         for m, c in markers.get(uid, []):
             n = have.count(m)
+            if n == 0 and c['t1'] is not None and c['t1'] < t_end - 15.0 and hs[c['hid']]['kind'] in ('daemon', 'timer'):
+                # Known finding D: a daemon/timer carries what is left of a patch (a transformation refused with 422 on a stale
+                # version) into its *next* invocation; after the last invocation there is none, and the leftover is dropped.
+                refused = any('jsonpatch' in r['classes'] and r['outcome'] == 422 and m in json.dumps(r['payload']) for r in reqs)
+                later = any(x['hid'] == c['hid'] and x['uid'] == c['uid'] and x['inc'] == c['inc'] and x['seq'] > c['seq'] for x in calls)
+                delivered = any('jsonpatch' in r['classes'] and r['outcome'] == 200 and m in json.dumps(r['payload']) for r in reqs)
+                if refused and not later and not delivered:
+                    res.known.append({'id': FINDING_D, 'msg': f'{body["metadata"]["name"]} ({uid}): the transformation {m} of the last invocation of '
+                                      f'{hs[c["hid"]]["kind"]} {c["hid"]} (t={c["t0"]}..{c["t1"]}) was refused with 422 (stale version) and never sent again'})
+                    continue
             if n != 1 and c['t1'] is not None and c['t1'] < t_end - 15.0:
                 res.fail('C08/marker-not-exactly-once', f'{body["metadata"]["name"]} ({uid}): transformation marker {m} of {c["hid"]} (t={c["t0"]}) occurs {n} times in {have}')
         if not hit_by_c:
@@ -354,6 +375,8 @@ def check(run, res, t_end):
         res.label('recreate-under-same-name')
     if any(r['outcome'] == 404 for r in reqs):
         res.label('404')
+    if sum(1 for h in hs.values() if h['kind'] in ('timer', 'daemon')) >= 2:
+        res.label('two-background-handlers-patching')
     res.label('status_sub' if status_sub else 'no-status_sub')
     res.nontrivial = saw_422 or saw_foreign_between or (saw_recreate and any(c['t1'] is not None and c['t1'] - c['t0'] > 0 for c in calls))
     if res.nontrivial:
